@@ -184,6 +184,45 @@ mut("c12-tail-index-absolute", "C12", "C12.R4", (RM, "acc.push((end_marker, Some
 mut("c12-head-index-ignores-children", "C12", "C12.R4", (RM, "acc.push((marker, Some(current + (end_cursor - start_cursor) + 1)));", "acc.push((marker, Some(current + 1)));"))
 mut("c12-dedent-end-unclamped", "C12", "C12.R1", (BI, "let end = std::cmp::min(start + indent_len, indent_pos);", "let end = start + indent_len;"))
 
+# ---------------------------------------------------------------- C15
+mut("c15-list-swapped-delimiters", "C15", "C15.R1", (CH, "    format: ListFormat,\n) -> Result<String, ListError> {\n    let (delimiter_start, delimiter_end) = delimiters;\n    let tokens = tokenizer::tokenize(&content, &delimiter_start, &delimiter_end);\n\n    let parsed = parser::parse(&tokens);\n    let remover = build_remover(config, content.clone());\n    let markers: Vec<_> = remover", "    format: ListFormat,\n) -> Result<String, ListError> {\n    let (delimiter_start, delimiter_end) = delimiters;\n    let tokens = tokenizer::tokenize(&content, &delimiter_end, &delimiter_start);\n\n    let parsed = parser::parse(&tokens);\n    let remover = build_remover(config, content.clone());\n    let markers: Vec<_> = remover"))
+mut("c15-list-filters-markers", "C15", "C15.R1", (CH, "        .into_iter()\n        .map(|v| (v, true))\n        .collect();", "        .into_iter()\n        .filter(|v| v.1.is_none())\n        .map(|v| (v, true))\n        .collect();"))
+mut("c15-remove-uses-own-collection", "C15", "C15.R1", (RM, "        let markers = self.build_remove_marker(&content);\n        let mut new_content", "        let markers: Vec<RemoveMarker> = self.build_remove_marker_all(&content).into_iter().map(|v| v.0).collect();\n        let mut new_content"))
+mut("c15-env-in-library", "C15", "C15.R2", (RM, "fn is_skip(el: &Element) -> bool {\n    el.attrs", "fn is_skip(el: &Element) -> bool {\n    std::env::var(\"CHIRITORI_NO_SKIP\").is_err()\n        && el.attrs"))
+mut("c15-hashset-iteration", "C15", "C15.R2", (MK, "self.marker_removal_names.contains(name_attr_value)", "self.marker_removal_names.iter().next().map_or(false, |n| n == name_attr_value)"))
+mut("c15-clean-different-remover", "C15", "C15.R1", (CH, "    let remover = build_remover(config, content.clone());\n    let (removed, markers) = remover.remove(parsed, &content);", "    let remover = build_remover(config, Rc::new(content.to_uppercase()));\n    let (removed, markers) = remover.remove(parsed, &content);"))
+# ---------------------------------------------------------------- C16
+mut("c16-serde-rename", "C16", "C16.R1", (LS, "#[derive(Debug, PartialEq, Serialize)]\npub struct ListItem {\n    line_range", "#[derive(Debug, PartialEq, Serialize)]\npub struct ListItem {\n    #[serde(rename = \"lines\")]\n    line_range"))
+mut("c16-status-swapped", "C16", "C16.R1", (LS, "                    true => ItemStatus::Ready,\n                    false => ItemStatus::Pending,", "                    true => ItemStatus::Pending,\n                    false => ItemStatus::Ready,"))
+mut("c16-coloring-changes-text", "C16", "C16.R2", (LS, "    let color_end = end.min(line_end);", "    let color_end = if coloring { end.min(line_end) } else { end };"))
+mut("c16-colour-const-not-sgr", "C16", "C16.R2", (LS, 'const RESET_COLOR: &str = "\\x1b[0m";', 'const RESET_COLOR: &str = "\\x1b[0m ";'))
+mut("c16-json-without-line-map", "C16", "C16.R1", (CH, "        ListFormat::JSON => serde_json::to_string(&build_list(&content, &markers, Some(&line_map)))\n            .map_err(|_| ListError::JSONSerializeError),\n    }\n}\n\npub fn list_all(", "        ListFormat::JSON => serde_json::to_string(&build_list(&content, &markers, None))\n            .map_err(|_| ListError::JSONSerializeError),\n    }\n}\n\npub fn list_all("))
+mut("c16-json-item-different-args", "C16", "C16.R2", (LS, "                *is_removal,\n                false,\n                line_range,", "                true,\n                false,\n                line_range,"))
+mut("c16-byte0-exit-before-check", "C16", "C16.R3", (LB, "        if cursor >= bytes.len() {\n            break None;\n        }\n\n        match check(content, bytes, &cursor) {\n            CheckResult::Skip => {}\n            CheckResult::Found => break Some(cursor),\n            CheckResult::None => {\n                if pause_on_char {\n                    break None;\n                }\n            }\n        }\n\n        if cursor == 0 {\n            break None;\n        }", "        if cursor >= bytes.len() || cursor == 0 {\n            break None;\n        }\n\n        match check(content, bytes, &cursor) {\n            CheckResult::Skip => {}\n            CheckResult::Found => break Some(cursor),\n            CheckResult::None => {\n                if pause_on_char {\n                    break None;\n                }\n            }\n        }"))
+mut("c16-colour-used-for-width", "C16", "C16.R2", (LS, "    result.push_str(&\" \".repeat(line_number_ofs + marker_start_ofs_len - marker_start_tab_len));", "    result.push_str(&\" \".repeat(line_number_ofs + marker_start_ofs_len - marker_start_tab_len + marker_start_color.len()));"))
+
+# ---------------------------------------------------------------- C18
+mut("c18-default-tag-literal", "C18", "C18.R1", (RM, "fn is_skip(el: &Element) -> bool {\n    el.attrs", "fn is_skip(el: &Element) -> bool {\n    el.name != \"time-limited\" && el.attrs", ))
+mut("c18-hardcoded-length", "C18", "C18.R2", (TK, "(tokens, next_state, byte_start_pos, start_pos, current + 1)", "(tokens, next_state, byte_start_pos, start_pos, current + 1 + (delimiter_start.len() / 6) * 0 + 4 - 4)"))
+mut("c18-delimiter-by-length", "C18", "C18.R3", (TK, "    let mut delimiter_start_chars = delimiter_start.chars();\n\n    if *c == delimiter_start_chars.next().unwrap() {", "    let mut delimiter_start_chars = delimiter_start.chars();\n\n    if delimiter_start.len() < 64 && *c == delimiter_start_chars.next().unwrap() {"))
+mut("c18-trim-matches-back", "C18", "C18.R", (EP, "let target = target.strip_suffix(element.delimiter_end).unwrap_or(target);", "let target = target.trim_end_matches(element.delimiter_end);"))
+mut("c18-unknown-keyword", "C18", "C18.R1", (TL, 'find(|a| a.name == "to")', 'find(|a| a.name == "to" || a.name == "until")'))
+# ---------------------------------------------------------------- C20
+mut("c20-delimiters-swapped-in-list-all", "C20", "C20.R1", (CLI, "        list_all(\n            content,\n            (args.delimiter_start, args.delimiter_end),", "        list_all(\n            content,\n            (args.delimiter_end, args.delimiter_start),"))
+mut("c20-println", "C20", "C20.R4", (CLI, 'print!("{}", output);', 'println!("{}", output);'))
+mut("c20-create-before-read", "C20", "C20.R5", (CLI, "    let args = Args::parse();\n\n    let mut content = String::new();", "    let args = Args::parse();\n    let mut out_file = args.output.as_ref().map(|f| File::create(f).expect(\"file not found\"));\n\n    let mut content = String::new();"), (CLI, "        let mut f = File::create(filename).expect(\"file not found\");\n        f.write_all", "        let _ = filename;\n        let f = out_file.as_mut().unwrap();\n        f.write_all"))
+mut("c20-flag-targets-dropped", "C20", "C20.R2", (CLI, "        .into_iter()\n        .chain(args.removal_marker_target_name)\n        .collect();", "        .into_iter()\n        .collect();\n    let _ = args.removal_marker_target_name;"))
+mut("c20-default-changed", "C20", "C20.R7", (CLI, '#[arg(long, default_value = "> -->")]', '#[arg(long, default_value = "-->")]'))
+mut("c20-target-default-back", "C20", "C20.R", (CLI, "    #[arg(long)]\n    removal_marker_target_name: Vec<String>,", '    #[arg(long, default_value = "vec![]")]\n    removal_marker_target_name: Vec<String>,'))
+mut("c06-target-default-back", "C06", "C06.R5", (CLI, "    #[arg(long)]\n    removal_marker_target_name: Vec<String>,", '    #[arg(long, default_value = "vec![]")]\n    removal_marker_target_name: Vec<String>,'))
+mut("c20-list-all-dispatched-to-list", "C20", "C20.R3", (CLI, "    } else if args.list_all {\n        list_all(", "    } else if args.list_all {\n        list("))
+mut("c20-env-tz", "C20", "C20.R8", (CLI, "    let content = Rc::new(content);", '    let _tz = std::env::var("TZ");\n    let content = Rc::new(content);'))
+mut("c20-config-lines-trimmed", "C20", "C20.R2", (CLI, "    reader.lines().map_while(Result::ok).collect::<Vec<_>>()", "    reader\n        .lines()\n        .map_while(Result::ok)\n        .map(|l| l.trim().to_string())\n        .collect::<Vec<_>>()"))
+mut("c20-json-flag-ignored-for-list-all", "C20", "C20.R3", (CLI, "            config,\n            convert_list_format(args.list_json),\n        )\n        .unwrap()\n    } else {", "            config,\n            convert_list_format(false),\n        )\n        .unwrap()\n    } else {"))
+mut("c20-content-trimmed", "C20", "C20.R6", (CLI, "    let content = Rc::new(content);", "    let content = Rc::new(content.trim_end().to_string());"))
+mut("c20-current-naive", "C20", "C20.R1", (CLI, ".parse::<chrono::DateTime<chrono::Local>>()\n                .unwrap_or(chrono::Local::now()),", ".parse::<chrono::DateTime<chrono::Utc>>()\n                .map(|t| t.with_timezone(&chrono::Local))\n                .unwrap_or(chrono::Local::now()),"))
+mut("c20-output-appends-newline", "C20", "C20.R4", (CLI, "        f.write_all(output.as_bytes())", "        f.write_all(format!(\"{}\\n\", output).as_bytes())"))
+
 # ---------------------------------------------------------------- benign variants (every rule silent)
 benign("b-c05-single-expression", (TL, "if self.current_time < expires.unwrap() {\n            return false;\n        }\n\n        true", "self.current_time >= expires.unwrap()"))
 benign("b-c05-format-shorthand", (TL, 'parse_from_str(&expires_str, "%Y-%m-%d %H:%M:%S %z")', 'parse_from_str(&expires_str, "%F %T %z")'))
@@ -203,6 +242,9 @@ benign("b-format-let-introduced", (FM, "        let range = format_block(content
 benign("b-tokenizer-redispatch-inlined", (TK, "get_state(c, delimiter_start, delimiter_end, State::Text)", "match check_delimiter_start(c, delimiter_start) {\n                            State::DelimiterStart(chars) => (Some(TokenKind::Text), State::DelimiterStart(chars)),\n                            _ => (None, State::Text),\n                        }"))
 
 benign("b-parser-if-chain", (EP, "State::ValueWithNoQuote => {\n                                if current_char == ' ' || current_char == '\\n' {\n                                    state = State::NameBegin\n                                }\n                            }", "State::ValueWithNoQuote => match current_char {\n                                ' ' | '\\n' => state = State::NameBegin,\n                                _ => {}\n                            },"))
+
+benign("b-cli-match-instead-of-iflet", (CLI, "    if let Some(filename) = args.output {\n        let mut f = File::create(filename).expect(\"file not found\");\n        f.write_all(output.as_bytes())\n            .expect(\"something went wrong writing the file\");\n    } else {\n        print!(\"{}\", output);\n    }", "    match args.output {\n        Some(filename) => {\n            let mut f = File::create(filename).expect(\"file not found\");\n            f.write_all(output.as_bytes())\n                .expect(\"something went wrong writing the file\");\n        }\n        None => print!(\"{}\", output),\n    }"))
+benign("b-cli-format-if", (CLI, "    match list_json {\n        true => ListFormat::JSON,\n        false => ListFormat::PrettyString,\n    }", "    if list_json {\n        ListFormat::JSON\n    } else {\n        ListFormat::PrettyString\n    }"))
 
 with open(os.path.join(os.path.dirname(os.path.abspath(__file__)), "mutants.json"), "w") as f:
     json.dump(C, f, indent=1)
